@@ -563,3 +563,14 @@ func (p *Prog) ReachFrom(roots ...string) map[*Func]bool {
 	}
 	return out
 }
+
+// DeclNode is the declaring node of the function: the FuncDecl, or the literal.
+func (f *Func) DeclNode() ast.Node {
+	if f.Lit != nil {
+		return f.Lit
+	}
+	if f.Decl != nil {
+		return f.Decl
+	}
+	return f.Body
+}
